@@ -7,6 +7,7 @@ package fbb
 import (
 	"bufio"
 	"bytes"
+	"unicode/utf8"
 
 	"github.com/paulrosania/go-charset/charset"
 	_ "github.com/paulrosania/go-charset/data"
@@ -28,6 +29,9 @@ func StringToBody(str, encoding string) ([]byte, error) {
 		for {
 			// Lines can not be longer that 1000 characters including CRLF.
 			n := min(len(line), 1000-2)
+			for n > 0 && n < len(line) && !utf8.RuneStart(line[n]) {
+				n-- // Don't split in the middle of a multi-byte character
+			}
 
 			out.Write(line[:n])
 			out.WriteString("\r\n")
